@@ -1215,8 +1215,155 @@ func (in *inliner) hoistCalls(exprs []ast.Expr, file *ast.File, depth int, stack
 	return pre, out, hoisted > 0
 }
 
+// rotateReadAhead rewrites the read-ahead loop idiom
+//
+//	a, b := f(x)
+//	for cond { body; a, b = f(x) }
+//
+// (the same call expression before the loop and as the last statement of its
+// body, no continue in the body) into the equivalent read-at-the-top form
+//
+//	var a A; var b B
+//	for { a, b = f(x); if !(cond) { break }; body }
+//
+// so that the loop has a single read site whose results are used directly.
+// Both forms evaluate f(x), cond and body in exactly the same sequence.
+func (in *inliner) rotateReadAhead(list []ast.Stmt, file *ast.File) []ast.Stmt {
+	var out []ast.Stmt
+	for i := 0; i < len(list); i++ {
+		s := list[i]
+		def, ok := s.(*ast.AssignStmt)
+		if !ok || def.Tok != token.DEFINE || len(def.Rhs) != 1 || i+1 >= len(list) {
+			out = append(out, s)
+			continue
+		}
+		call, ok := def.Rhs[0].(*ast.CallExpr)
+		loop, ok2 := list[i+1].(*ast.ForStmt)
+		if !ok || !ok2 || loop.Init != nil || loop.Post != nil || loop.Cond == nil || len(loop.Body.List) == 0 {
+			out = append(out, s)
+			continue
+		}
+		last, ok := loop.Body.List[len(loop.Body.List)-1].(*ast.AssignStmt)
+		if !ok || last.Tok != token.ASSIGN || len(last.Rhs) != 1 || len(last.Lhs) != len(def.Lhs) {
+			out = append(out, s)
+			continue
+		}
+		call2, ok := last.Rhs[0].(*ast.CallExpr)
+		if !ok || !sameExpr(in, call, call2) {
+			out = append(out, s)
+			continue
+		}
+		good := true
+		var decls []ast.Stmt
+		for k := range def.Lhs {
+			a, ok1 := def.Lhs[k].(*ast.Ident)
+			b, ok2 := last.Lhs[k].(*ast.Ident)
+			if !ok1 || !ok2 || a.Name == "_" || in.pkg.TypesInfo.Defs[a] == nil || in.pkg.TypesInfo.Uses[b] != in.pkg.TypesInfo.Defs[a] {
+				good = false
+				break
+			}
+			te, tok := in.typeExpr(in.pkg.TypesInfo.Defs[a].Type(), file)
+			if !tok {
+				good = false
+				break
+			}
+			decls = append(decls, &ast.DeclStmt{Decl: &ast.GenDecl{Tok: token.VAR, Specs: []ast.Spec{&ast.ValueSpec{Names: []*ast.Ident{ident(a.Name)}, Type: te}}}})
+		}
+		// no continue that targets this loop, no labels
+		if good {
+			var scan func(n ast.Node, inner bool)
+			scan = func(n ast.Node, inner bool) {
+				ast.Inspect(n, func(m ast.Node) bool {
+					switch x := m.(type) {
+					case *ast.FuncLit:
+						return false
+					case *ast.LabeledStmt:
+						good = false
+					case *ast.BranchStmt:
+						if x.Label != nil || x.Tok == token.GOTO {
+							good = false
+						}
+						if x.Tok == token.CONTINUE && !inner {
+							good = false
+						}
+					case *ast.ForStmt:
+						if m != n {
+							scan(x.Body, true)
+							return false
+						}
+					case *ast.RangeStmt:
+						scan(x.Body, true)
+						return false
+					}
+					return good
+				})
+			}
+			scan(loop.Body, false)
+		}
+		if !good {
+			out = append(out, s)
+			continue
+		}
+		var lhs []ast.Expr
+		for _, l := range def.Lhs {
+			lhs = append(lhs, ident(l.(*ast.Ident).Name))
+		}
+		read := &ast.AssignStmt{Lhs: lhs, Tok: token.ASSIGN, Rhs: []ast.Expr{call}}
+		exit := &ast.IfStmt{Cond: &ast.UnaryExpr{Op: token.NOT, X: &ast.ParenExpr{X: loop.Cond}}, Body: &ast.BlockStmt{List: []ast.Stmt{&ast.BranchStmt{Tok: token.BREAK}}}}
+		body := append([]ast.Stmt{read, exit}, loop.Body.List[:len(loop.Body.List)-1]...)
+		out = append(out, decls...)
+		out = append(out, &ast.ForStmt{Body: &ast.BlockStmt{List: body}})
+		in.count++
+		in.log = append(in.log, fmt.Sprintf("read-ahead loop rotated at %s", in.fset.Position(loop.Pos())))
+		i++
+	}
+	return out
+}
+
+// sameExpr: two expressions are syntactically identical and their identifiers denote the same objects.
+func sameExpr(in *inliner, a, b ast.Expr) bool {
+	if types.ExprString(a) != types.ExprString(b) {
+		return false
+	}
+	var ia, ib []*ast.Ident
+	ast.Inspect(a, func(n ast.Node) bool {
+		if id, ok := n.(*ast.Ident); ok {
+			ia = append(ia, id)
+		}
+		_, lit := n.(*ast.FuncLit)
+		return !lit
+	})
+	ast.Inspect(b, func(n ast.Node) bool {
+		if id, ok := n.(*ast.Ident); ok {
+			ib = append(ib, id)
+		}
+		_, lit := n.(*ast.FuncLit)
+		return !lit
+	})
+	if len(ia) != len(ib) {
+		return false
+	}
+	for i := range ia {
+		oa, ob := in.pkg.TypesInfo.Uses[ia[i]], in.pkg.TypesInfo.Uses[ib[i]]
+		if oa != ob {
+			return false
+		}
+	}
+	// literals are elided by ExprString: require none
+	lit := false
+	ast.Inspect(a, func(n ast.Node) bool {
+		switch n.(type) {
+		case *ast.BasicLit, *ast.CompositeLit, *ast.FuncLit:
+			lit = true
+		}
+		return !lit
+	})
+	return !lit
+}
+
 // processList rewrites a statement list, expanding inlinable calls.
 func (in *inliner) processList(list []ast.Stmt, file *ast.File, depth int) []ast.Stmt {
+	list = in.rotateReadAhead(list, file)
 	var out []ast.Stmt
 	for _, s := range list {
 		out = append(out, in.processStmt(s, file, depth)...)
